@@ -329,13 +329,27 @@ func (x *Exec) specPkgMember(sc *specScope, pkgName, name string) (Value, bool) 
 			pkg = fn.Origin().Pkg
 		}
 	} else {
+		var cur *ssa.Package
+		if sc.fr != nil && sc.fr.fn != nil {
+			f := sc.fr.fn
+			for f.Parent() != nil {
+				f = f.Parent()
+			}
+			cur = f.Pkg
+			if cur == nil && f.Origin() != nil {
+				cur = f.Origin().Pkg
+			}
+		}
 		for _, p := range x.prog.AllPackages() {
 			if p.Pkg.Name() == pkgName {
-				// prefer imports of the current package
-				pkg = p
-				if sc.fr != nil && sc.fr.fn.Pkg != nil {
-					for _, imp := range sc.fr.fn.Pkg.Pkg.Imports() {
+				// prefer imports of the current package, then a package that has the member
+				if pkg == nil || (pkg.Members[name] == nil && p.Members[name] != nil) {
+					pkg = p
+				}
+				if cur != nil {
+					for _, imp := range cur.Pkg.Imports() {
 						if imp == p.Pkg {
+							pkg = p
 							goto found
 						}
 					}
